@@ -389,7 +389,10 @@ def run_probe(entry, payload, seconds=None):
         seconds = PROBE_SECONDS
     val, exc, hung = guarded(lambda: ENTRIES[entry](payload), seconds)
     if hung:
-        return "hang", {"kind": "hang", "entry": entry, "what": f"{entry}: no result within {seconds}s", "probe": [entry, payload]}
+        # confirm with a five times longer period before calling it a hang (loaded machine)
+        val, exc, hung = guarded(lambda: ENTRIES[entry](payload), seconds * 5)
+    if hung:
+        return "hang", {"kind": "hang", "entry": entry, "what": f"{entry}: no result within {seconds}s, nor within {seconds * 5}s", "probe": [entry, payload]}
     if exc is not None:
         if not allowed(entry, exc):
             return "bad:" + exc_name(exc), {
@@ -426,7 +429,7 @@ def run_probe(entry, payload, seconds=None):
                     "sig": "coe:" + exc_name(exc),
                     "probe": [entry, payload],
                 }
-        if entry in ZONE_ENTRIES and isinstance(exc, dns.exception.SyntaxError) and entry == "zone_text":
+        if entry in ZONE_ENTRIES and isinstance(exc, dns.exception.SyntaxError):
             # zone files add file and line
             if not re.match(r"^.+:\d+: ", str(exc)):
                 return "noline", {
@@ -698,6 +701,50 @@ def load_seeds():
             s.msg_wires.append(_seed_call(lambda: dns.message.from_text(t).to_wire()))
         except Exception:  # noqa
             pass
+    # messages built through the library's own API: TSIG-signed, UPDATE, every EDNS option class,
+    # an AXFR-style answer (all under the watchdog: the code under test may be broken)
+    def _api_messages():
+        import dns.update as U
+        out = []
+        q = dns.message.make_query("www.example.", "A", use_edns=0, payload=1232, options=[
+            dns.edns.ECSOption("1.2.3.0", 24), dns.edns.GenericOption(65001, b"abc"), dns.edns.EDEOption(3, "stale"),
+            dns.edns.NSIDOption(b"nsid"), dns.edns.CookieOption(b"12345678", b""), dns.edns.ReportChannelOption(dns.name.from_text("agent.example."))])
+        out.append(q.to_wire())
+        q2 = dns.message.make_query("www.example.", "MX")
+        q2.use_tsig(keyring(), "keyname.")
+        out.append(q2.to_wire())
+        r = dns.message.make_response(q2)
+        r.answer.append(dns.rrset.from_text("www.example.", 300, "IN", "MX", "10 mail.example.", "20 mail2.example."))
+        r.use_tsig(keyring(), "keyname.")
+        out.append(r.to_wire())
+        u = U.UpdateMessage("example.")
+        u.present("a")
+        u.absent("b", "A")
+        u.add("c", 300, "A", "10.0.0.1")
+        u.delete("d")
+        u.delete("e", "A")
+        u.delete("f", "A", "10.0.0.2")
+        u.replace("g", 300, "TXT", '"x y"')
+        out.append(u.to_wire())
+        x = dns.message.make_response(dns.message.make_query("example.", "AXFR"))
+        soa = dns.rrset.from_text("example.", 300, "IN", "SOA", "ns1.example. hostmaster.example. 1 2 3 4 5")
+        x.answer += [soa, dns.rrset.from_text("a.example.", 300, "IN", "A", "10.0.0.1"),
+                     dns.rrset.from_text("example.", 300, "IN", "NS", "ns1.example."), soa]
+        out.append(x.to_wire())
+        big = dns.message.make_response(dns.message.make_query("big.example.", "ANY"))
+        for rc, rt, tx, _w in s.rdatas[:60]:
+            if tx and rc == 1:
+                try:
+                    big.answer.append(dns.rrset.from_text("big.example.", 60, "IN", dns.rdatatype.to_text(rt), tx))
+                except Exception:  # noqa
+                    pass
+        out.append(big.to_wire(max_size=65535))
+        return out
+
+    try:
+        s.msg_wires += _seed_call(_api_messages)
+    except Exception:  # noqa
+        pass
     _seeds = s
     return s
 
